@@ -103,7 +103,10 @@ def run(prop, cfg, tier, seed, known):
             meta.update(json.load(open(mp)))
         except Exception as e:
             pass
-    prefixes = [cfg["prefix"]] + ([cfg["thorough_prefix"]] if tier == "thorough" and cfg.get("thorough_prefix") else [])
+    prefixes = ([cfg["prefix"]] if cfg.get("prefix") else []) + ([cfg["thorough_prefix"]] if tier == "thorough" and cfg.get("thorough_prefix") and cfg.get("prefix") else [])
+    also = cfg.get("also", {})
+    prefixes += list(also.get("quick", [])) + (list(also.get("thorough", [])) if tier == "thorough" else [])
+    meta = {k: v for k, v in meta.items() if isinstance(v, dict) and not k.startswith("_")}
     out = {"obligations": 0, "discharged": 0, "violations": [], "undecided": [], "known_hits": [], "functions": [],
            "samples": [], "cmds": [], "trusted": [], "solver_s": 0.0}
     cmd = ["cargo", "kani", "--output-format", "terse", "-j", str(cfg.get("jobs", 8))]
